@@ -52,6 +52,14 @@ def guard_active(model, case):
                 return True
         if np.any(cov <= 0) and ct != 'full':
             return True
+        # collapse onto a single observation (all variances of a class tiny
+        # against the spread of the data - the textbook singularity of the
+        # Gaussian mixture likelihood, also for spherical covariances)
+        data = case.emb if kind == 'gcacgmm' else case.y
+        spread = float(np.var(np.asarray(data, dtype=np.float64)))
+        var = np.abs(ev) if ct == 'full' else np.abs(cov)
+        if np.any(var < 1e-10 * max(spread, 1e-300)):
+            return True
     w = np.asarray(model.weight)
     if np.any(w < 1e-12):
         return True
